@@ -386,6 +386,31 @@ Theorem c15_fields_work_bounded : forall s, List.length (space_mask s 0) = Strin
 Proof. intro s. exact (conj (space_mask_length s 0) (go_fields_length s)). Qed.
 Print Assumptions c15_fields_work_bounded.
 
+(* ---- wave 3: tarfs FS.open (members of an indexed control / data section opened by name: packageInfo's
+   ControlFS.Open(".PKGINFO"), the lazy installer, every fs.FS user). The hop counter is the only bound of the
+   recursion through hard and symbolic links; goextract reads from the source that the recursive calls of BOTH
+   link kinds raise it by at least 1, the limit maxHops and its test. For EVERY archive index and every name the
+   chase ends — a member or an error — within maxHops + 2 calls: no cycle, no chain of any length, no mixture of
+   the two link kinds makes it run on. *)
+Theorem c15_tarfs_open_terminates : forall es name, Returns (tarfs_open_name es name).
+Proof. exact tarfs_open_name_returns. Qed.
+Print Assumptions c15_tarfs_open_terminates.
+Theorem c15_tarfs_open_fuel_bound : forall idx fuel name r,
+  tarfs_open fuel idx name 0 = r -> r <> OutOfFuel -> tarfs_open (Nat.max fuel tarfs_fuel) idx name 0 = r.
+Proof. intros idx fuel name r H N. apply (tarfs_open_mono idx fuel name 0%Z r H N). apply Nat.le_max_l. Qed.
+Print Assumptions c15_tarfs_open_fuel_bound.
+Theorem c15_tarfs_hops_pinned :
+  (tarfs_hop_incr, tarfs_hops_guard, tarfs_max_hops, tarfs_open_sites) = ((1, 1)%Z, "hops > maxHops"%string, 64%Z, []) /\
+  (lock_from_file_sites, lock_from_file_len_guards) = ([], []).
+Proof. repeat split. Qed.
+Print Assumptions c15_tarfs_hops_pinned.
+Example c15_tarfs_open_example :
+  let es := [(".PKGINFO", mkTent 1 ".PKGINFO"); ("usr/bin/a", mkTent 1 "b"); ("usr/bin/b", mkTent 2 "/usr/bin/a"); ("usr/bin/c", mkTent 2 "../lib/x");
+             ("usr/lib/x", mkTent 0 ""); ("d/", mkTent 5 ""); ("l", mkTent 2 "d/")]%string in
+  tarfs_open_name es ".PKGINFO" = Err /\ tarfs_open_name es "usr/bin/a" = Err /\ tarfs_open_name es "usr/bin/c" = Ok "usr/lib/x"%string /\
+  tarfs_open_name es "l" = Err /\ tarfs_open_name es "d/" = Ok "d/"%string /\ tarfs_open_name es "nope" = Err.
+Proof. vm_compute. repeat split. Qed.
+
 (* non-vacuity *)
 Example c15_member_kinds_example :
   expand_apk [MPlain; MJunk] false = Err /\ expand_apk [MPlain; MZero; MJunk] false = Ok false /\
